@@ -45,6 +45,8 @@ class Tr(gen_submit.Tr):
             nm = n["referencedDecl"]["name"]
             if nm in LOCALS and width(n) == (32, False):
                 return "(.loc %d)" % LOCALS[nm]
+            if nm in getattr(self, "consts", {}):
+                return self.consts[nm]       # a `const` local: its initialiser, whose operands are frozen from then on
             raise NoFit("variable " + nm)
         if k == "MemberExpr":
             if self.member(n) == "total_length" and width(n) == (64, False):
@@ -131,6 +133,17 @@ class Tr(gen_submit.Tr):
                             r = strip(init[0])
                             if r.get("kind") == "DeclRefExpr" and r["referencedDecl"]["name"] == "buffer":
                                 continue
+                        if init and "const" in (v.get("type", {}).get("qualType") or "") and nm not in LOCALS:
+                            e = self.expr(init[0])
+                            bits, sg = width(v)
+                            ib, _ = width(init[0])
+                            if sg or bits < ib:
+                                raise NoFit("narrowing const local")
+                            self.consts[nm] = e
+                            self.frozen |= set(int(x) for x in re.findall(r"\.loc (\d+)", e))
+                            if ".total" in e:
+                                self.frozen.add(-1)
+                            continue
                         raise NoFit("declaration of " + str(nm))
                     continue
                 if k == "IfStmt":
@@ -163,6 +176,8 @@ class Tr(gen_submit.Tr):
                     l0 = strip(lhs)
                     nm = l0.get("referencedDecl", {}).get("name") if l0.get("kind") == "DeclRefExpr" else None
                     if nm in LOCALS:
+                        if LOCALS[nm] in self.frozen:
+                            raise NoFit("assignment to a variable a const local was computed from")
                         emit(".setLoc %d (%s)" % (LOCALS[nm], self.expr(rhs)))
                         continue
                     if nm == "partial_block_buffer" and self.member(strip(rhs)) == "partial_block_buffer":
@@ -178,6 +193,8 @@ class Tr(gen_submit.Tr):
                     if self.member(lhs) == "total_length" and op == "+=":
                         emit(".setTotal (.add .total (%s))" % self.expr(rhs))
                         continue
+                    if (nm == "len" and 0 in self.frozen) or (self.member(lhs) == "total_length" and -1 in self.frozen):
+                        raise NoFit("assignment to a variable a const local was computed from")
                     if nm == "len" and op == "-=":
                         emit(".setLoc 0 (.trunc 32 (.sub (.loc 0) (%s)))" % self.expr(rhs))
                         continue
@@ -243,7 +260,7 @@ def main(argv=None):
             if not cs:
                 continue
             seen.add(d["name"])
-            tr.next_guard, tr.blocks = 10, set()
+            tr.next_guard, tr.blocks, tr.consts, tr.frozen = 10, set(), {}, set()
             out = []
             tr.walk(kids(cs[0]), None, out)
             want = d["name"].replace("_update_", "_block_")
@@ -397,7 +414,7 @@ def main_tail(argv=None):
             if not cs:
                 continue
             seen.add(d["name"])
-            tr.next_guard, tr.blocks = 10, set()
+            tr.next_guard, tr.blocks, tr.consts, tr.frozen = 10, set(), {}, set()
             out = []
             tr.walk(kids(cs[0]), None, out)
             want = d["name"].replace("_tail_", "_block_")
